@@ -100,6 +100,10 @@ def gen(rng, tier, mult=1):
         yield M.rand_triple_case(rng)
     for _ in range(500 * n):
         yield M.rand_chain_case(rng)
+    for c in M.NESTED_FIXED:
+        yield dict(c)
+    for _ in range(150 * n):
+        yield M.rand_nested_case(rng)
     for _ in range(150 * n):
         yield M.rand_find_case(rng)
     for _ in range(150 * n):
@@ -125,6 +129,8 @@ def model_requests(case, obs):
     if _bad_obs(obs):
         return []
     k = case["kind"]
+    if k == "nested":
+        return []
     if k == "merge":
         out = obs["out"] if _transportable(obs["out"]) else {"exc": "UnmodelledResult"}
         return [_merge_req(case, case["a"], case["b"], out)]
@@ -205,6 +211,14 @@ def judge(case, obs, resps):
             disagree({"step": name, "model": M.canon_outcome(resp["model"]), "impl": impl_out})
 
     nontrivial = True
+    if kind == "nested":
+        # a composite source IS a data source: nested directly or hidden behind a plain wrapper it must lead to the same
+        # result and to the same trees handed to every source (differential on the implementation only: the Lean chain
+        # model has no nested sources)
+        if obs["direct"] != obs["opaque"]:
+            fail("chain", {"nested_composite_not_one_source": True, "direct": obs["direct"], "opaque": obs["opaque"]})
+        return Judgement(case, spec_ok, True, detail, kind=label + f"/o{int(case['ml'])}{int(case['ms'])}i{int(case['iml'])}{int(case['ims'])}",
+                         nontrivial=(case["ml"], case["ms"]) != (case["iml"], case["ims"]), failed_clause=clause)
     if kind == "merge":
         if obs["mutated"]:
             fail("non_mutation", {"mutated": obs["mutated"], "a": case["a"], "b": case["b"]})
